@@ -91,6 +91,9 @@ inductive Unit
 
 inductive PItem
   | unit (u : Unit)
+  /-- bytes with which the client's TLS layer cannot go on: junk below the layer — or, when the
+  handshake is due, a handshake the client must not accept (a certificate for another name, or of
+  an unknown CA): the ClientHello leaves, the handshake fails, nothing is delivered -/
   | junk
   deriving Repr
 
